@@ -207,6 +207,14 @@ def check_property(pid, tier, seed):
                 where = " at %s (%s)" % (m.get("item"), m.get("part"))
             undecided.append("%s: %s: %s%s" % (tag, kind, msg[:200], where))
         failed_names = set()
+        # functions whose SHARED step / frame postcondition fails in this run: the function no longer does what every property's
+        # own postcondition about it presupposes (e.g. a registration that is silently dropped), so for a property that does not
+        # own the shared clauses those own postconditions are consequences, not evidence -> undecided, the stand-in decides
+        broken_step = set()
+        for f in failures:
+            gs0 = groups_of(f)
+            if (gs0 is None or "*" in gs0) and (f.get("kind") or "").startswith("postcondition not satisfied") and (f.get("part") or "").startswith("ensures"):
+                broken_step.add(f.get("item"))
         for f in failures:
             name, kind = obligation_name(f)
             f["obligation"] = name
@@ -241,10 +249,20 @@ def check_property(pid, tier, seed):
                 if not (kind.startswith("precondition not satisfied") or "arithmetic" in kind or "division" in kind or "bit shift" in kind):
                     undecided.append("%s: shared obligation fails (not a panic-freedom obligation; owned by C04): %s (%s)" % (tag, name, kind))
                     continue
+            elif f["attrib"] == "shared" and re.match(r"(StagesBuilder|DispatcherBuilder|Conflict)::|check_intersection$", f.get("item") or ""):
+                # shape / frame / step contracts of the builder side serve every scheduler property alike; a change that breaks one of them
+                # (ids handed out differently, a capacity guard, a table no longer pushed) violates some properties and not others:
+                # no property reports it from the proof alone, each one's bounded stand-in decides it on the real crate
+                undecided.append("%s: shared builder-side contract fails (decided per property by the bounded stand-in): %s (%s)" % (tag, name, kind))
+                continue
             elif f["attrib"] == "shared" and pid not in STAR_OWNERS and not spec.get("owns_shared"):
                 undecided.append("%s: shared obligation fails (owned by %s): %s (%s)" % (tag, ",".join(STAR_OWNERS), name, kind))
                 continue
             if f["attrib"] == "other":
+                continue
+            if (f["attrib"] == "own" and f.get("item") in broken_step and pid not in STAR_OWNERS and spec.get("owns_shared") is not True
+                    and kind.startswith("postcondition not satisfied")):
+                undecided.append("%s: %s fails together with the shared step contract of the same function (owned by %s): consequence, not evidence (%s)" % (tag, name, ",".join(STAR_OWNERS), kind))
                 continue
             if spec.get("fail_undecided"):
                 # the obligation ties the code to one reference function; code that computes another function may still
